@@ -15,12 +15,14 @@ import (
 
 // alphabetA hits every UAX #14 class that matters to the wrapper: letters, space (repeated, for
 // weight), NBSP, hyphen, LF, CR, LINE SEPARATOR, CJK, combining mark, ZWJ, full stop, digit.
+// All mandatory-break classes are represented: LF, CR, LINE SEPARATOR, PARAGRAPH SEPARATOR (BK),
+// VT and FF (BK), NEL (NL).
 var alphabetA = []rune{'a', 'b', 'c', ' ', ' ', 0x00A0, '-', '\n', 0x2028, 'あ', 'い', 0x0301, 0x200D, '\r', '.', '1', ' ', 'a',
-	'b', ' ', 'c', 'a', ' ', 'あ', '-', 'b'}
+	'b', ' ', 'c', 'a', ' ', 'あ', '-', 'b', 0x000B, 0x000C, 0x0085, 0x2029, 'a', ' ', 'b', 'c'}
 
 func isSpaceRune(r rune) bool {
 	switch r {
-	case ' ', 0x00A0, '\n', '\r', 0x2028, 0x2029, '\t', 0x3000:
+	case ' ', 0x00A0, '\n', '\r', 0x2028, 0x2029, '\t', 0x3000, 0x000B, 0x000C, 0x0085:
 		return true
 	}
 	return false
@@ -344,4 +346,33 @@ func genPipeline(t *rapid.T) *Case {
 		c.Cfg.Truncator = TruncSpec{Kind: "shaped", RTL: c.Cfg.Truncator.RTL}
 	}
 	return c
+}
+
+// genPrev optionally gives the case an earlier paragraph wrapped on the same LineWrapper: either an
+// unrelated synthetic paragraph, or a variant of this very paragraph with the same text and run
+// boundaries but re-drawn cluster structures (what a cache keyed by run index / rune range would
+// confuse). Pipeline cases get a synthetic predecessor as well (the wrapper does not care).
+func genPrev(t *rapid.T, c *Case) {
+	switch rapid.IntRange(0, 9).Draw(t, "prevKind") {
+	case 0, 1:
+		p := genSynthetic(t)
+		p.Widths = []int{rapid.IntRange(0, 40).Draw(t, "prevWidth")}
+		c.Prev = p
+	case 2, 3:
+		if c.Family != "synthetic" || len(c.Runs) == 0 || len(c.Text) == 0 {
+			return
+		}
+		p := &Case{Family: "synthetic", Text: append([]rune(nil), c.Text...), Vertical: c.Vertical}
+		off := 0
+		for i := range c.Runs {
+			ln := c.Runs[i].count()
+			r := genRun(t, p.Text, off, ln)
+			r.RTL, r.Face = c.Runs[i].RTL, c.Runs[i].Face
+			p.Runs = append(p.Runs, r)
+			off += ln
+		}
+		genConfig(t, p)
+		p.Widths = []int{rapid.IntRange(0, 40).Draw(t, "prevWidth")}
+		c.Prev = p
+	}
 }
